@@ -1,9 +1,10 @@
+\* the code before the fix of F-09c: a file added or removed during start-up is never noticed
 CONSTANTS Dags <- MCDags
-  Horizon = 2
+  Horizon = 1
   Sched <- MCSched
-  MaxFileOps = 3
-  RescanOnWatch = TRUE
-  ReleaseOnError = FALSE
+  MaxFileOps = 2
+  RescanOnWatch = FALSE
+  ReleaseOnError = TRUE
 SPECIFICATION Spec
 CONSTRAINT Bound
 INVARIANTS C09_OnlyScheduled C09_StopOnlyRunning C09_NoStartWhileRunning C09_WatcherCatchesUp
